@@ -152,7 +152,8 @@ loser, the `open()` for a reader — each is one step of the operation itself, h
     (`specRun` replays it from the initial map: every event returns what `specVal` says and changes the ref as
     `specVal` says; losers change nothing) and ends in exactly the ref map on disk;
 (3) an operation that has returned `o` has a linearization event with outcome `o`;
-(4) an operation that has no linearization event yet has not returned. -/
+(4) an operation that has no linearization event yet has not returned;
+(5) no operation is linearized twice. -/
 theorem cas_linearizable_loose (env : Env) (vr : Variant) (loose0 : Ref → Option Val) (ops : List Op)
     (hsha : ∀ r, IsSha (loose0 r)) (hops : ∀ op, op ∈ ops → LooseOp op) (sched : List Actor) :
     let s := irun env vr ops (IState.init env vr (FS.init loose0 none) ops) sched
@@ -160,11 +161,15 @@ theorem cas_linearizable_loose (env : Env) (vr : Variant) (loose0 : Ref → Opti
     (∃ m, specRun loose0 s.log = some m ∧ ∀ r, m r = s.cfg.fs.loose r) ∧
     (∀ a op o, ops[a]? = some op → s.cfg.outs a = [o] →
       ∃ e, e ∈ s.log ∧ e.actor = a ∧ e.op = op ∧ e.out = o) ∧
-    (∀ a op, ops[a]? = some op → (∀ e, e ∈ s.log → e.actor ≠ a) → s.cfg.outs a = []) := by
+    (∀ a op, ops[a]? = some op → (∀ e, e ∈ s.log → e.actor ≠ a) → s.cfg.outs a = []) ∧
+    (∀ a, evCount a s.log ≤ 1) := by
   intro s
   have h0 := inv_init env vr loose0 ops hsha hops
   have hinv : Inv loose0 ops s := inv_irun env vr loose0 ops _ sched h0
-  refine ⟨irun_cfg env vr loose0 ops _ sched h0, hinv.spec, ?_, ?_⟩
+  have hu0 : Uniq (IState.init env vr (FS.init loose0 none) ops) := fun a => ⟨by simp [evCount, IState.init],
+    fun _ => by simp [evCount, IState.init]⟩
+  refine ⟨irun_cfg env vr loose0 ops _ sched h0, hinv.spec, ?_, ?_,
+    fun a => (uniq_irun env vr loose0 ops _ sched h0 hu0 a).1⟩
   · intro a op o hop houts
     have hlog := hinv.logOut a op hop
     have halt : a < s.cfg.actors.length := by
